@@ -42,13 +42,17 @@ class Inst:
 
 
 SHAPE = [(0, 0), (4, 1), (1, 5)]          # three keypoints, non-degenerate bounding box
+SHAPES = {"tri": SHAPE,
+          "hline": [(0, 0), (4, 0)],      # two keypoints on one row: zero-height bounding box
+          "vline": [(0, 0), (0, 5)]}      # two keypoints in one column: zero-width bounding box
 
 
 def make_inst(d):
     """d = {uid, x, y, score, animal} with x, y Fractions/ints (dyadic)."""
     x, y = float(Fraction(d["x"])), float(Fraction(d["y"]))
     k = d.get("size", 1)
-    return Inst([[x + k * dx, y + k * dy] for dx, dy in SHAPE], float(Fraction(d["score"])), d["uid"], d.get("animal"))
+    return Inst([[x + k * dx, y + k * dy] for dx, dy in SHAPES[d.get("shape", "tri")]], float(Fraction(d["score"])),
+                d["uid"], d.get("animal"))
 
 
 # ---------------------------------------------------------------------------
